@@ -227,12 +227,18 @@ func (vc *VC) checkPost(st *State, vals []Val, pos token.Pos, ord int) {
 	}
 	for _, en := range ct.Exits {
 		vc.tolerant, vc.missingNames = true, 0
-		nU := len(vc.unsupported)
+		nU, nT, nP := len(vc.unsupported), len(vc.typeFacts), len(st.pc)
 		t := vc.specBool(st, vc.entry, en.Expr, nil, nil)
 		vc.tolerant = false
 		if vc.missingNames > 0 {
+			// a local it mentions is not in scope at this return: drop everything the evaluation left behind
 			vc.unsupported = vc.unsupported[:nU]
-			continue // a local it mentions is not in scope at this return
+			for _, f := range vc.typeFacts[nT:] {
+				delete(vc.rangeAsserted, f)
+			}
+			vc.typeFacts = vc.typeFacts[:nT]
+			st.pc = st.pc[:nP]
+			continue
 		}
 		clause := fmt.Sprintf("%s/exit%d", vc.fn.Key, en.Ord)
 		vc.emit(st, "postcondition", clause, fmt.Sprintf("ret%d", ord), t, pos, en.Src)
@@ -513,7 +519,12 @@ func (vc *VC) noteWrite(st *State, ptr Val, n *types.Named) {
 
 func (vc *VC) noteFresh(st *State, ptr Val, n *types.Named) {}
 
-func (vc *VC) noteFreshOrigin(st *State, org string) {}
+// noteFreshOrigin: a newly made backing store (make, slices.Clone, composite literal) is distinct from every backing store that
+// exists so far; origins share the allocation set with objects
+func (vc *VC) noteFreshOrigin(st *State, org string) {
+	vc.assume(st, fmt.Sprintf("(and (> %s 0) (not (select %s %s)))", org, st.alloc, org))
+	st.alloc = vc.define("alloc", "(Array Int Bool)", fmt.Sprintf("(store %s %s true)", st.alloc, org))
+}
 
 func (vc *VC) recordAlloc(st *State, c *ast.CallExpr, n Val, hasCap bool) {
 	// allocation-size obligations (C19) are emitted only for functions that opt in
